@@ -473,6 +473,10 @@ WILD_KWS = ["begincmap", "endcmap", "usecmap", "def", "begincodespacerange", "en
             "beginnotdefrange", "endnotdefrange", "foo", "pop"]
 
 
+LONG_PREFIX = {1: b"", 2: b"\x00", 3: b"\x00\x00", 4: b"\x00\x00\x01", 5: b"\x01\x00\x00\x00",
+               6: b"\xff\x01\x00\x00\x00"}
+
+
 def gen_wild_tokens(rng) -> List[Any]:
     """Token soup around the handlers: wrong operand types, missing operands, cidrange/cidchar, def, usecmap."""
     toks: List[Any] = []
@@ -482,8 +486,10 @@ def gen_wild_tokens(rng) -> List[Any]:
         for _ in range(rng.choice([0, 1, 2, 3, 3, 4, 6])):
             r = rng.random()
             if r < 0.5:
-                ops.append(("s", bytes(rng.randrange(256) if rng.random() < 0.3 else rng.choice([0, 1, 0x41, 0xFF])
-                                       for _ in range(rng.choice([0, 1, 2, 2, 2, 3, 4, 5, 6])))))
+                # strings of equal length differ in the last byte only, so that every range spans <= 255 codes
+                n = rng.choice([0, 1, 2, 2, 2, 3, 4, 5, 6])
+                ops.append(("s", (LONG_PREFIX[n] + bytes([rng.randrange(256) if rng.random() < 0.3 else
+                                                         rng.choice([0, 1, 0x41, 0xFF])])) if n else b""))
             elif r < 0.7:
                 ops.append(("i", rng.choice([0, 1, 65, 0x20, 0xA0, 0x3042, 0xD800, 0x10FFFF, 0x110000, -1, 70000])))
             elif r < 0.8:
@@ -591,8 +597,9 @@ def mutate_w(rng, elems):
 class Batch:
     """Collects requests for the Lean driver together with what the implementation / Python twin said."""
 
-    def __init__(self, ctx: C.Ctx):
+    def __init__(self, ctx: C.Ctx, auto: bool = True):
         self.ctx = ctx
+        self.auto = auto          # stateless requests may be sent in chunks (each `ask` is a fresh driver process)
         self.lines: List[str] = []
         self.meta: List[Tuple[str, Any, Any, Any]] = []   # (kind, op, input, expected)
 
@@ -600,6 +607,8 @@ class Batch:
         """model output of `line` must equal what the implementation produced."""
         self.lines.append(line)
         self.meta.append(("tie", op, inp, impl_out))
+        if self.auto and len(self.lines) >= 3000:
+            self.flush()
 
     def twin(self, op: str, line: str, py_out: str, inp: Any) -> None:
         """Lean spec output must equal the Python twin of the spec used as the oracle."""
@@ -714,6 +723,8 @@ def run_seg(ctx: C.Ctx) -> None:
     if e is not None or got != "unknown":
         ctx.fail(C.Failure("font without Encoding: CMap name is not 'unknown'", {"group": "cmapname", "kind": "none"},
                            "unknown", repr(got or e), {"group": "cmapname"}))
+    b.flush()
+    b.auto = False      # the trie lives in the driver process: load + queries must travel in one batch
     # tries of the predefined CJK CMaps
     names = CJK_QUICK if ctx.tier == "quick" else all_cmap_names()
     avail = set(all_cmap_names())
@@ -740,7 +751,9 @@ def run_seg(ctx: C.Ctx) -> None:
         b.flush()
     # small synthetic tries built through FileCMap.add_code2cid (incl. prefix conflicts)
     from pdfminer.cmapdb import FileCMap
-    for _ in range(ctx.n(60, 2000)):
+    for k in range(ctx.n(60, 2000)):
+        if k % 200 == 199:
+            b.flush()
         fc = FileCMap()
         b.tie("trie.load", "trie.new", "ok", None)
         codes = []
@@ -1683,7 +1696,7 @@ CLASSIFIERS = {
 def replay(ctx: C.Ctx, doc, from_corpus: bool = False) -> None:
     inp = doc.get("input", {})
     g = inp.get("group")
-    b = Batch(ctx)
+    b = Batch(ctx, auto=False)
     ctx.branch("corpus" if from_corpus else "replay")
     if g == "seg":
         name = inp["cmap"]
